@@ -98,6 +98,20 @@ def _fault_enum(u, op):
         if not invalid or not valid:
             return 0, None
         bad = invalid[pick % len(invalid)]
+        if nvalid % 2 == 1 and len(valid) >= 2:
+            # the invalid element has a past in this very list: it was a member, was removed, and now belongs to another graph
+            others = [g for g in u.graphs if g is not G]
+            v = valid[pick % len(valid)]
+            if others:
+                try:
+                    coll.append(v)
+                    coll.remove(v)
+                    (others[pick % len(others)].inputs if v.producer() is None else others[pick % len(others)].outputs).append(v)
+                    bad = v
+                    valid = [x for x in valid if x is not v]
+                except Exception:
+                    pass
+                u.sweep()
         good = [valid[(pick + j) % len(valid)] for j in range(1 + nvalid % 3)]
         for k in range(len(good) + 1):
             arg = good[:k] + [bad] + good[k:]
